@@ -33,3 +33,25 @@ Proof.
   split; split; try (repeat constructor; simpl; intuition congruence);
     intros j Hj; destruct j as [|[|[|j]]]; simpl; auto; inversion Hj as [|? H1]; inversion H1 as [|? H2]; inversion H2 as [|? H3]; inversion H3.
 Qed.
+
+(* ---- the barrier of VM.Step (Front.Barrier): in every interleaving of main and the workers a
+   Step runs every processor exactly once before the post-compute data movement may start ---- *)
+From BM Require Import Front.Barrier Proofs.BarrierProofs.
+
+Theorem barrier_complete : forall n s, RInv n s ->
+  (b_main s <> MIdle -> exists s', bstep s s') /\
+  (b_main s = MIdle -> Forall (fun w => w = WDone) (b_ws s) /\ complete n (b_log s)).
+Proof.
+  intros n s I. split; [apply (round_progress n); auto|].
+  intro Hm. destruct (round_end n s I Hm) as (H1 & H2 & H3). split; auto. split; auto.
+Qed.
+Print Assumptions barrier_complete.
+
+(* hence, whatever the interleaving, the processors' states after the round are those of compute *)
+Theorem barrier_result_is_compute : forall n s cfg ps, RInv n s -> b_main s = MIdle -> length ps = n ->
+  fold_left (step_one cfg) (b_log s) ps = fold_left (step_one cfg) (seq 0 n) ps.
+Proof.
+  intros n s cfg ps I Hm Hl. destruct (round_end n s I Hm) as (_ & H2 & H3).
+  apply order_irrelevant; rewrite Hl; [split; auto|apply seq_complete].
+Qed.
+Print Assumptions barrier_result_is_compute.
